@@ -6,6 +6,7 @@ mod l1;
 mod oracle;
 mod replay;
 mod replay_str;
+mod universe;
 mod util;
 
 fn main() {
@@ -17,6 +18,7 @@ fn main() {
     match args[1].as_str() {
         "l1" => l1::main(rest),
         "replay" => replay::main(rest),
+        "universe" => universe::main(rest),
         "version" => println!("{:?} {:?}", precis_core::UNICODE_VERSION, precis_profiles::UNICODE_VERSION),
         other => util::tool_error(&format!("unknown subcommand {}", other)),
     }
